@@ -378,6 +378,19 @@ func (fr *Frame) assumeFieldInv(st *State, x *ssa.UnOp, c cell) {
 	if sh.pureFuncField[c.key] {
 		fr.u.pureFnTerms[fr.regs[x].S] = c.key
 	}
+	if fa, ok := x.X.(*ssa.FieldAddr); ok {
+		if nt, ok := derefType(fa.X.Type()).(*types.Named); ok && nt.Obj().Pkg() != nil {
+			if stt, ok := nt.Underlying().(*types.Struct); ok {
+				fk := nt.Obj().Pkg().Name() + ".field:" + nt.Obj().Name() + "." + stt.Field(fa.Field).Name()
+				if fr.u.cs.ByKey[fk] != nil {
+					if fr.u.fieldFnTerms == nil {
+						fr.u.fieldFnTerms = map[string]string{}
+					}
+					fr.u.fieldFnTerms[fr.regs[x].S] = fk
+				}
+			}
+		}
+	}
 	if g, ok := x.X.(*ssa.Global); ok && g.Pkg != nil {
 		if k := "G:" + g.Pkg.Pkg.Path() + "." + g.Name(); sh.pureFuncField[k] {
 			fr.u.pureFnTerms[fr.regs[x].S] = k
